@@ -9,6 +9,7 @@
   `char buffer[3]`.
 -/
 import W2c2Verif.Lemmas.ReaderPrintf
+import W2c2Verif.Lemmas.ReaderNoUB
 import W2c2Verif.Gen.Reader
 
 namespace W2c2Verif.Props.C10
@@ -150,5 +151,60 @@ theorem filename_fits (c i : Nat) (hi : i < 2 ^ 32) :
     simp only [fmtLen, parse_filename, piecesLen, Option.map, len_u 10 false i 32 rfl hi]
     simp [convLen]; omega
   · decide
+
+end W2c2Verif.Props.C10
+
+/-! ## Part 2 — the reader on ANY byte string
+
+`Model.Reader.read` is a total function (Lean accepts it only with termination proofs: the LEB loop and the
+vector loops are structural, the module loop decreases the buffer because every successful `readSection`
+consumes at least the id byte).  Its `ub` outcomes are the points where reader.c performs an operation the C
+language leaves undefined (Model/Obligations.md).  `reader_ub_sites` says which of them are reachable at all. -/
+
+namespace W2c2Verif.Props.C10
+open W2c2Verif.Model W2c2Verif.Model.Reader W2c2Verif.Lemmas.Reader
+
+/-- **reader_total_no_ub**, as far as it is true of the pinned reader: for ANY byte string and ANY
+    configuration (`-g` or not, strict shift semantics or not) the only undefined operations the reader can
+    reach are the code-size wrap of reader.c:1482-1486 and — under `-g` — reading the uninitialised tail of a
+    re-grown `functionNames` array.  In particular the LEB decoders, `wasmReadName/Bytes`, every section
+    reader, the export-name index `functions[export.index - importCount]`, the name index
+    `names[functionIndex]` and the NULL-name comparison (guarded since b750457) never are. -/
+theorem reader_ub_sites (cfg : Cfg) (bs : List UInt8) (u : UB) (h : Model.Reader.read cfg bs = .ub u) :
+    u = .codeSizeUnderflow ∨ (cfg.debug = true ∧ u = .uninitFunctionNames) :=
+  read_ub cfg bs u h
+
+/-- The guarded indexing obligations can never fire (corollary, spelled out per site). -/
+theorem reader_guarded_sites_safe (cfg : Cfg) (bs : List UInt8) :
+    Model.Reader.read cfg bs ≠ .ub .exportFunctionIndex ∧ Model.Reader.read cfg bs ≠ .ub .functionNameIndex ∧
+    Model.Reader.read cfg bs ≠ .ub .nullFunctionName ∧ Model.Reader.read cfg bs ≠ .ub .lebSignedShift := by
+  refine ⟨?_, ?_, ?_, ?_⟩ <;> intro h <;> rcases read_ub cfg bs _ h with h | ⟨_, h⟩ <;> cases h
+
+/-- Without `-g` a module is either decoded, rejected with an error code, or hits the code-size wrap. -/
+theorem reader_no_debug_trichotomy (strict : Bool) (bs : List UInt8) :
+    (∃ m, Model.Reader.read ⟨false, strict⟩ bs = .ok m) ∨ (∃ c, Model.Reader.read ⟨false, strict⟩ bs = .err c) ∨
+    Model.Reader.read ⟨false, strict⟩ bs = .ub .codeSizeUnderflow := by
+  cases h : Model.Reader.read ⟨false, strict⟩ bs with
+  | ok m => exact Or.inl ⟨m, rfl⟩
+  | err c => exact Or.inr (Or.inl ⟨c, rfl⟩)
+  | ub u =>
+    rcases read_ub _ bs u h with h' | ⟨h', _⟩
+    · subst h'; exact Or.inr (Or.inr rfl)
+    · cases h'
+
+/-- A module state with two declared functions of type `() -> ()`. -/
+def twoFunctions : RawModule :=
+  { RawModule.empty 29 with types := [{ params := [], results := [] }], functions := [Function.empty 0, Function.empty 0] }
+
+set_option maxRecDepth 100000 in
+/-- The full-strength `reader_total_no_ub` is FALSE of the pinned reader: a code entry whose locals
+    declarations (3 bytes: `01 01 7f`) are longer than its declared size (1) makes `codeSize -= consumed` wrap;
+    `bufferSkipUnchecked` then moves the buffer 4 GiB past the file and the next entry is read from there.
+    Payload of the code section of the 29-byte file
+    `00 61 73 6d 01 00 00 00 | 01 04 01 60 00 00 | 03 03 02 00 00 | 0a 08 02 01 01 01 7f 02 00 0b`
+    (the real reader dies with SIGSEGV in `bufferReadByte`; malformed input, not a prefix of a valid module). -/
+theorem code_size_underflow_reachable :
+    codeSection twoFunctions [0x02, 0x01, 0x01, 0x01, 0x7f, 0x02, 0x00, 0x0b] = .ub .codeSizeUnderflow := by
+  decide
 
 end W2c2Verif.Props.C10
